@@ -20,6 +20,11 @@ import (
 )
 
 var c15GoodNames = []string{"mychart", "app", "a-b", "x.y", "ünï", "c_1", "UPPER", "web2", "日本"}
+
+// dependency names that collide as prefixes or differ by case only: the grouping by first path
+// element and the byte-order sort must keep them apart (foo < foo-bar < foo.bar < foo_bar, Foo < foo;
+// as archive file names foo-0.1.0.tgz sorts BEFORE foo+x-0.1.0.tgz although foo+x < foo-... by name)
+var c15PrefixNames = []string{"foo", "foo-bar", "Foo", "foo_bar", "foo.bar", "fo", "foo+x", "FOO"}
 var c15BadNames = []string{"a/b", "", "../x", ".", "..", "a\\b", "sp ace", "tab\there", "nul\x00l", "/", "_under", ".dot", "x.tgz", "x/"}
 var c15GoodVersions = []string{"0.1.0", "1.2.3-beta.1+build.5", "v1.0.0", "1.0", "10.20.30", "0.0.0-alpha"}
 var c15BadVersions = []string{"one", "", "1.0.0.0", "1.0.0-", "latest", "1.2.x"}
@@ -143,7 +148,8 @@ func c15GenData(r *rand.Rand, name string) []byte {
 var c15TplNames = []string{"templates/deployment.yaml", "templates/_helpers.tpl", "templates/NOTES.txt", "templates/sub/dir/svc.yaml", "templates/ünï.yaml",
 	"templates/tests/test-connection.yaml", "templates/a.b.c.yaml", "templates/x", "templates/bin.dat"}
 var c15FileNames = []string{"README.md", "LICENSE", ".helmignore", "files/bin.dat", "crds/crd.yaml", "a/b/c/d.txt", "日本/ファイル.txt", ".dotdir/f", "templatesx/y.yaml",
-	"template/z", "chartsx/q", "values.yaml.bak", "Chart.yaml.orig", "charts/sub-0.1.0.tgz.prov", "docs/index.html", "ci/test-values.yaml", "x", "files/.hidden", "values.schema.json.bak", "with space/f i l e"}
+	"template/z", "chartsx/q", "values.yaml.bak", "Chart.yaml.orig", "charts/sub-0.1.0.tgz.prov", "docs/index.html", "ci/test-values.yaml", "x", "files/.hidden", "values.schema.json.bak", "with space/f i l e",
+	"x.prov", "docs/sig.prov", "charts/foo-1.2.3.tgz.prov", "charts.prov"}
 var c15HostileTpl = []string{"templates/.dotfile.yaml", "templates//double.yaml", "templates/../escape.yaml", "templates/a\\b.yaml", "templates/./dot.yaml", "tpl-outside.yaml"}
 var c15HostileFiles = []string{"requirements.yaml", "requirements.lock", "Chart.lock", "values.yaml", "values.schema.json", "Chart.yaml", "templates/in-files.yaml", "charts/notachart",
 	"charts/_ignored/x", "charts/.hid/x", "charts/sub/Chart.yaml", "./rel", "a//b", "../up", "/abs", "back\\slash", "dir/", "charts/x.tgz"}
@@ -172,9 +178,14 @@ func c15GenChart(r *rand.Rand, depth int, name string, hostile bool) *c15Chart {
 	var depNames []string
 	if depth > 0 && r.Intn(3) == 0 {
 		n := 1 + r.Intn(2)
-		perm := r.Perm(len(c15GoodNames))
+		pool := c15GoodNames
+		if r.Intn(3) == 0 { // prefix / case collisions, up to three of them
+			pool = c15PrefixNames
+			n = 2 + r.Intn(2)
+		}
+		perm := r.Perm(len(pool))
 		for i := 0; i < n; i++ {
-			dn := c15GoodNames[perm[i]]
+			dn := pool[perm[i]]
 			if hostile && r.Intn(6) == 0 {
 				dn = c15Pick(r, []string{"_under", ".dot", "x.tgz", "a b", "../evil", "sub/dir", "../../up", "a\\b"})
 			}
@@ -221,6 +232,13 @@ func c15GenChart(r *rand.Rand, depth int, name string, hostile bool) *c15Chart {
 		}
 		seen[n] = true
 		c.Files = append(c.Files, c15File{Name: n, Data: c15GenData(r, n)})
+	}
+	// a packed dependency stored as a file below charts/ (what `helm dependency update` leaves there),
+	// itself containing packed or unpacked dependencies: nesting of archives 2-3 levels deep
+	if depth > 0 && r.Intn(10) == 0 {
+		if b := c15NestedTgz(r, 1+r.Intn(2), c15Pick(r, c15PrefixNames)); b != nil {
+			c.Files = append(c.Files, c15File{Name: "charts/" + c15Pick(r, []string{"packed", "foo", "foo-bar"}) + "-0.1.0.tgz", Data: b})
+		}
 	}
 	// lock
 	if r.Intn(3) == 0 {
@@ -287,6 +305,63 @@ func c15TgzOf(s *c15Chart) []byte {
 	return buf.Bytes()
 }
 
+// c15NestedTgz: a packed chart that carries, below charts/, another packed chart ... [levels] deep;
+// the innermost one has an unpacked dependency directory.
+func c15NestedTgz(r *rand.Rand, levels int, name string) []byte {
+	s := c15GenChart(r, 0, name, false)
+	s.Meta.Version = "0.1.0"
+	if levels > 0 {
+		in := c15Pick(r, c15PrefixNames)
+		if b := c15NestedTgz(r, levels-1, in); b != nil {
+			s.Files = append(s.Files, c15File{Name: "charts/" + in + "-0.1.0.tgz", Data: b})
+			if r.Intn(2) == 0 {
+				s.Files = append(s.Files, c15File{Name: "charts/" + in + "-0.1.0.tgz.prov", Data: []byte("-----BEGIN PGP SIGNED MESSAGE-----\n" + in)})
+			}
+		}
+	} else {
+		s.Deps = []*c15Chart{c15GenChart(r, 0, c15Pick(r, c15PrefixNames), false)}
+	}
+	return c15TgzOf(s)
+}
+
+// c15GenFilesTree: the entries of a real packaged tree (2-3 subcharts with colliding names, a
+// nested archive, .prov files at several depths), base directory cut, in a shuffled order.
+func c15GenFilesTree(r *rand.Rand) c15Case {
+	top := c15GenChart(r, 0, "top", false)
+	perm := r.Perm(len(c15PrefixNames))
+	for i := 0; i < 2+r.Intn(2); i++ {
+		d := c15GenChart(r, 1, c15PrefixNames[perm[i]], false)
+		if r.Intn(2) == 0 {
+			d.Files = append(d.Files, c15File{Name: c15Pick(r, []string{"x.prov", "docs/sig.prov", "charts/inner-0.1.0.tgz.prov"}), Data: []byte("sig")})
+		}
+		top.Deps = append(top.Deps, d)
+	}
+	if r.Intn(2) == 0 {
+		if b := c15NestedTgz(r, 1, "packed"); b != nil {
+			top.Files = append(top.Files, c15File{Name: "charts/packed-0.1.0.tgz", Data: b})
+			top.Files = append(top.Files, c15File{Name: "charts/packed-0.1.0.tgz.prov", Data: []byte("sig")})
+		}
+	}
+	c := c15Case{Kind: "files", Note: "tree-shuffled"}
+	ents, ok := c15ScanTgz(c15TgzOf(top))
+	if !ok || len(ents) == 0 {
+		return c15GenFiles(r)
+	}
+	for _, e := range ents {
+		i := strings.Index(e.Name, "/")
+		c.Files = append(c.Files, c15File{Name: e.Name[i+1:], Data: e.Data})
+	}
+	switch r.Intn(3) {
+	case 0: // any order
+		r.Shuffle(len(c.Files), func(i, j int) { c.Files[i], c.Files[j] = c.Files[j], c.Files[i] })
+	case 1: // reversed
+		for i, j := 0, len(c.Files)-1; i < j; i, j = i+1, j-1 {
+			c.Files[i], c.Files[j] = c.Files[j], c.Files[i]
+		}
+	}
+	return c
+}
+
 func c15ChartYaml(r *rand.Rand, name string, hostile bool) []byte {
 	m := c15GenMeta(r, name, hostile, nil)
 	b, _ := yaml.Marshal(m)
@@ -310,9 +385,13 @@ var c15FilesPool = []string{"Chart.yaml", "Chart.yaml", "Chart.lock", "values.ya
 	"templates/a.yaml", "templates/", "templates", "template/x.yaml", "templatesx", "Templates/x.yaml", "templates/sub/b.tpl",
 	"charts/sub/Chart.yaml", "charts/sub/templates/t.yaml", "charts/sub/values.yaml", "charts/sub/charts/deep/Chart.yaml", "charts/sub/charts/deep/x",
 	"charts/other/Chart.yaml", "charts/a.tgz", "charts/a.tgz.prov", "charts/a.tgz/extra", "charts/README", "charts/_x/Chart.yaml", "charts/.x/y", "charts/sub.prov",
-	"charts/", "charts", "chartsx/y", "README.md", "crds/c.yaml", ".helmignore", "a/b/c", "x.prov", "charts/zz/Chart.yaml", "charts/b.tgz"}
+	"charts/", "charts", "chartsx/y", "README.md", "crds/c.yaml", ".helmignore", "a/b/c", "x.prov", "charts/zz/Chart.yaml", "charts/b.tgz",
+	"charts/sub/docs/a.prov", "charts/sub/charts/deep-0.1.0.tgz.prov", "charts/sub/charts/deep/x.prov", "charts/b.tgz.prov", "charts/Sub/Chart.yaml", "charts/sub-x/Chart.yaml"}
 
 func c15GenFiles(r *rand.Rand) c15Case {
+	if r.Intn(3) == 0 {
+		return c15GenFilesTree(r)
+	}
 	c := c15Case{Kind: "files"}
 	hostile := r.Intn(3) == 0
 	n := 1 + r.Intn(9)
@@ -420,6 +499,18 @@ func c15GenDir(r *rand.Rand) c15Case {
 	if r.Intn(5) == 0 {
 		if b := c15TgzOf(c15GenChart(r, 0, "packed", false)); b != nil {
 			add("charts/packed-0.1.0.tgz", b)
+		}
+	}
+	if r.Intn(5) == 0 { // packed dependencies with colliding names, archives nested 2-3 levels
+		perm := r.Perm(len(c15PrefixNames))
+		for i := 0; i < 1+r.Intn(2); i++ {
+			n := c15PrefixNames[perm[i]]
+			if b := c15NestedTgz(r, 1+r.Intn(2), n); b != nil {
+				add("charts/"+n+"-0.1.0.tgz", b)
+				if r.Intn(2) == 0 {
+					add("charts/"+n+"-0.1.0.tgz.prov", []byte("sig"))
+				}
+			}
 		}
 	}
 	if r.Intn(5) != 0 {
@@ -556,6 +647,60 @@ func (p *c15) Corpus() []any {
 	out = append(out, c15Case{Kind: "dir", Files: []c15File{{Name: "Chart.yaml", Data: []byte("apiVersion: v2\nname: thechart\nversion: one.two\n")}}})
 	out = append(out, c15Case{Kind: "dir", Files: []c15File{{Name: "Chart.yaml", Data: []byte("apiVersion: v2\nname: some/other\nversion: 0.1.0\n")}}})
 	out = append(out, c15Case{Kind: "dir", Files: []c15File{{Name: "Chart.yaml", Data: []byte("apiVersion: v2\nname: thechart\nversion: 0.1.0\ndependencies:\n- name: missing\n  version: 1.0.0\n  repository: https://x\n")}}})
+	// ---- round 4 ----
+	// Chart.lock and requirements.lock in one list: the later one wins, in both orders
+	lockA := []byte("digest: from-requirements-lock\ngenerated: \"2020-01-01T00:00:00Z\"\n")
+	lockB := []byte("digest: from-chart-lock\ngenerated: \"2021-01-01T00:00:00Z\"\n")
+	out = append(out, c15Case{Kind: "files", Files: []c15File{{Name: "Chart.yaml", Data: cy}, {Name: "requirements.lock", Data: lockA}, {Name: "Chart.lock", Data: lockB}}})
+	out = append(out, c15Case{Kind: "files", Files: []c15File{{Name: "Chart.lock", Data: lockB}, {Name: "requirements.lock", Data: lockA}, {Name: "Chart.yaml", Data: cy}}})
+	// v1: whether requirements.lock stays among the files is decided by the apiVersion at that moment;
+	// a requirements.yaml that sets apiVersion: v2 before / after it
+	v1y := []byte("name: old\nversion: 0.1.0\n")
+	reqv2 := []byte("apiVersion: v2\ndependencies:\n- name: a\n  version: 1.0.0\n  repository: x\n")
+	out = append(out, c15Case{Kind: "files", Files: []c15File{{Name: "Chart.yaml", Data: v1y}, {Name: "requirements.yaml", Data: reqv2}, {Name: "requirements.lock", Data: lockA}}})
+	out = append(out, c15Case{Kind: "files", Files: []c15File{{Name: "requirements.lock", Data: lockA}, {Name: "Chart.yaml", Data: v1y}, {Name: "requirements.yaml", Data: reqv2}}})
+	// a well-formed v1 chart: dependencies and lock in requirements.*, a provenance file directly in
+	// charts/, dependencies foo-bar, Foo, foo listed out of order, one of them v1 with its own requirements.yaml
+	deps3 := []*chart.Dependency{{Name: "foo-bar", Version: "0.1.0", Repository: "https://example.com"}, {Name: "Foo", Version: "0.1.0", Repository: "https://example.com"}, {Name: "foo", Version: "0.1.0", Repository: "https://example.com"}}
+	reqy, _ := yaml.Marshal(map[string]interface{}{"dependencies": deps3})
+	lock3 := &chart.Lock{Generated: time.Unix(1700000000, 0).UTC(), Digest: "sha256:77", Dependencies: deps3}
+	lock3y, _ := yaml.Marshal(lock3)
+	inreq, _ := yaml.Marshal(map[string]interface{}{"dependencies": deps3[:1]})
+	v1m := md("v1", "legacy", "1.0.0")
+	v1m.Dependencies = deps3
+	foom := md("v1", "foo", "0.1.0")
+	foom.Dependencies = deps3[:1]
+	out = append(out, c15Case{Kind: "rt", Note: "v1-tree", Chart: &c15Chart{Meta: v1m, Lock: lock3, HasValues: true, Values: []byte("a: 1\n"),
+		Templates: []c15File{{Name: "templates/t.yaml", Data: []byte("t")}},
+		Files: []c15File{{Name: "requirements.yaml", Data: reqy}, {Name: "README.md", Data: []byte("r")}, {Name: "requirements.lock", Data: lock3y}, {Name: "charts/foo-0.1.0.tgz.prov", Data: []byte("sig")}},
+		Deps: []*c15Chart{{Meta: md("v2", "foo-bar", "0.1.0"), Files: []c15File{{Name: "docs/a.prov", Data: []byte("p")}}},
+			{Meta: md("v2", "Foo", "0.1.0"), Templates: []c15File{{Name: "templates/x.yaml", Data: []byte("x")}}},
+			{Meta: foom, Files: []c15File{{Name: "requirements.yaml", Data: inreq}, {Name: "x.prov", Data: []byte("p")}},
+				Deps: []*c15Chart{{Meta: md("v2", "foo-bar", "0.1.0"), Files: []c15File{{Name: "charts/deep-1.0.0.tgz.prov", Data: []byte("d")}}}}}}}})
+	// dependency names whose order as names differs from the order of their archive file names
+	// ('+' < '-'): foo < foo+x, but foo+x-0.1.0.tgz < foo-0.1.0.tgz
+	out = append(out, c15Case{Kind: "rt", Note: "name-vs-filename-order", Chart: &c15Chart{Meta: md("v2", "order", "0.1.0"),
+		Deps: []*c15Chart{{Meta: md("v2", "foo+x", "0.1.0"), Files: []c15File{{Name: "f", Data: []byte("1")}}}, {Meta: md("v2", "foo", "0.1.0"), Files: []c15File{{Name: "f", Data: []byte("2")}}}}}})
+	// the files of two subcharts with a common name prefix, interleaved, parent files in between
+	foo := []byte("apiVersion: v2\nname: foo\nversion: 0.1.0\n")
+	foobar := []byte("apiVersion: v2\nname: foo-bar\nversion: 0.1.0\n")
+	out = append(out, c15Case{Kind: "files", Note: "interleaved", Files: []c15File{{Name: "charts/foo-bar/templates/b.yaml", Data: []byte("b")}, {Name: "charts/foo/Chart.yaml", Data: foo},
+		{Name: "templates/t.yaml", Data: []byte("t")}, {Name: "charts/foo-bar/Chart.yaml", Data: foobar}, {Name: "charts/foo/templates/a.yaml", Data: []byte("a")},
+		{Name: "Chart.yaml", Data: cy}, {Name: "charts/foo-bar/charts/foo/Chart.yaml", Data: foo}, {Name: "charts/foo-1.0.0.tgz.prov", Data: []byte("s")}, {Name: "charts/foo/docs/x.prov", Data: []byte("s")}}})
+	// archives nested three levels: packed-0.1.0.tgz holds charts/mid-0.1.0.tgz holds charts/leaf (a directory)
+	leaf := &c15Chart{Meta: md("v2", "leaf", "0.1.0"), Files: []c15File{{Name: "f", Data: []byte("leaf")}}}
+	mid := &c15Chart{Meta: md("v1", "mid", "0.1.0"), Deps: []*c15Chart{leaf}, Files: []c15File{{Name: "x.prov", Data: []byte("m")}}}
+	if mb := c15TgzOf(mid); mb != nil {
+		packed := &c15Chart{Meta: md("v2", "packed", "0.1.0"), Files: []c15File{{Name: "charts/mid-0.1.0.tgz", Data: mb}, {Name: "charts/mid-0.1.0.tgz.prov", Data: []byte("s")}}}
+		if pb := c15TgzOf(packed); pb != nil {
+			out = append(out, c15Case{Kind: "dir", Note: "nested-archives", Files: []c15File{{Name: "Chart.yaml", Data: []byte("apiVersion: v2\nname: thechart\nversion: 0.1.0\n")},
+				{Name: "charts/packed-0.1.0.tgz", Data: pb}, {Name: "charts/packed-0.1.0.tgz.prov", Data: []byte("s")}, {Name: "charts/_ignored-0.1.0.tgz", Data: pb}, {Name: "charts/.hidden.tgz", Data: []byte("garbage")}}})
+			out = append(out, c15Case{Kind: "files", Note: "nested-archives", Files: []c15File{{Name: "charts/packed-0.1.0.tgz", Data: pb}, {Name: "Chart.yaml", Data: cy}, {Name: "charts/broken-0.1.0.tgz", Data: pb[:len(pb)/2]}}})
+		}
+	}
+	// negated and directory rules on a tree with nested directories
+	out = append(out, c15Case{Kind: "dir", Files: tree("!templates/\n")})
+	out = append(out, c15Case{Kind: "dir", Files: tree("docs/a/\n!*.md\n")})
 	_ = filepath.Join
 	return out
 }
